@@ -91,6 +91,41 @@ def _position_form(ctx, R, lib, g, p, T):
     return nz
 
 
+def _map_while_form(lib, g, upd):
+    """upd = .1 of last(map_while(transitions, |t| value.checked_sub(t.out.value()).map(|rest| (t, rest)))): the closure yields
+    Some((t, value - out)) exactly when value >= out, so the last item is the last leading transition that fits and its second part
+    is the remaining value"""
+    import vsplit
+    e = upd
+    if not (e[0] == 'field' and e[2] == '1'):
+        return False
+    e = e[1]
+    while e[0] in ('field', 'variant', 'okof'):
+        e = e[1]
+    if not (is_c(e, 'Iterator::last') and e[2] and is_c(e[2][0], 'Iterator::map_while') and len(e[2][0][2]) == 2):
+        return False
+    src, clo = e[2][0][2]
+    if clo[0] != 'closure' or not is_c(src, "Node::<'f>::transitions"):
+        return False
+    T = ('param', 't', 99)
+    cases = vsplit.closure_cases(lib, clo, [T], 0)
+    if not cases or len(cases) != 2:
+        return False
+    some = [c for c in cases if c[1][0] == 'agg' and c[1][1].endswith('Option::Some')]
+    none = [c for c in cases if c[1][0] == 'agg' and c[1][1].endswith('Option::None')]
+    if len(some) != 1 or len(none) != 1:
+        return False
+    conds, v = some[0]
+    pay = v[2][0][1]
+    if not (len(conds) == 1 and conds[0][1] == 1 and conds[0][0][0] == 'bin' and conds[0][0][1] == 'Ge'):
+        return False
+    val, out = conds[0][0][2], conds[0][0][3]
+    is_out = is_c(out, 'Output::value') and out[2][0] == ('field', T, 'out')
+    is_val = val[0] == 'havoc' and val[1] == (2,) or val == ('param', g.local_name(2), 2)
+    ok_pay = pay[0] == 'tuple' and len(pay[1]) == 2 and pay[1][0] == T and pay[1][1][0] == 'bin' and pay[1][1][1] == 'Sub' and pay[1][1][2] == val and pay[1][1][3] == out
+    return bool(is_out and is_val and ok_pay and none[0][0] == [(conds[0][0], 0)])
+
+
 def r16_1(ctx):
     _POSFORM['ok'] = False
     R = ctx.rule('R16.1', 'every output-accumulating descent that tests finality also reads the final output', floor=3)
@@ -177,6 +212,12 @@ def r16_1(ctx):
             ok_push = len(pushes) == 1 and any(x[0] == 'field' and x[2] == 'inp' for x in walk(pushes[0][3][1]))
             ctx.check(R, ok_push, 'step-appends-byte', 'a descent step does not append exactly the input byte of the transition it follows', fn=g)
             ok_upd = upd is not None and upd[0] == 'bin' and upd[1] == 'Sub' and any(x[0] == 'field' and x[2] == 'out' for x in walk(upd[3]))
+            if not ok_upd and upd is not None and _map_while_form(lib, g, upd):
+                # map_while(|t| value.checked_sub(t.out).map(|rest| (t, rest))).last(): selection and subtraction in one
+                _POSFORM['ok'] = True
+                ctx.check(R, True, 'step-consumes-output', '', fn=g)
+                ctx.check(R, True, 'step-choice', '', fn=g)
+                continue
             if ok_upd:
                 # the output that is subtracted belongs to a transition known to fit (out <= remaining value): it comes out of the
                 # take_while(..).last() selection, or the path compared THAT transition's output with the value
